@@ -61,13 +61,23 @@ func RelayMain(addr string) int {
 		fmt.Fprintln(os.Stderr, "relay: dial:", err)
 		return 4
 	}
+	dbg := func(dir string, n int64, err error) {
+		if p := os.Getenv("C16_RELAY_LOG"); p != "" {
+			if f, e := os.OpenFile(p, os.O_APPEND|os.O_CREATE|os.O_WRONLY, 0o644); e == nil {
+				fmt.Fprintf(f, "relay %d: %s ended after %d bytes: %v\n", os.Getpid(), dir, n, err)
+				_ = f.Close()
+			}
+		}
+	}
 	done := make(chan struct{}, 2)
 	go func() { // peer -> client
-		_, _ = io.Copy(os.Stdout, conn)
+		n, err := io.Copy(os.Stdout, conn)
+		dbg("peer->client", n, err)
 		done <- struct{}{}
 	}()
 	go func() { // client -> peer
-		_, _ = io.Copy(conn, os.Stdin)
+		n, err := io.Copy(conn, os.Stdin)
+		dbg("client->peer", n, err)
 		done <- struct{}{}
 	}()
 	<-done
